@@ -256,6 +256,10 @@ structure Env where
   modDid : Addr
   rank : List (Addr × Nat)     -- lexicographic rank of each bech32 address (node store iteration order)
   chainOk : Bool := true
+  modBonded : Addr := 0
+  modNotBonded : Addr := 0
+  rankB : List (Addr × Nat) := []      -- raw-byte order of account addresses (staking store keys)
+  valRankB : List (ValAddr × Nat) := [] -- raw-byte order of validator addresses
   deriving Repr, Inhabited
 
 end SaoVerif
